@@ -1,7 +1,7 @@
 /-
 Invariant of the `SetCache` LTS (one foreground task, background events between its operations),
-the correctness of `get` for the repaired configuration, and for the code as it is inside the
-trigger-free region `getSafe` (at most one staged operation per element; no staged removal among the
+the correctness of `get` for the configuration of the code as it is (`repaired`), and for the code
+before the fixes of F10/F17 (`asIs`) inside the trigger-free region `getSafe` (at most one staged operation per element; no staged removal among the
 materialised prefix of a spilled fetch).
 -/
 import QbiceVerif.Model.SetCache
@@ -1031,7 +1031,7 @@ theorem lastOf_pairs_nodup (log : List LogOp) (hnd : (log.map (·.x)).Nodup) (x 
               · exact absurd h1 hx
               · exact absurd ⟨o, ho', h1⟩ hno
 
-/-- as-is `get_snapshot` on a log with at most one operation per element = the repaired one -/
+/-- the pre-fix `get_snapshot` on a log with at most one operation per element = the current one -/
 theorem snapshot_asis_nodup {s : State} (hc : s.cfg.fixSnap = false)
     (hnd : ((logOf s).map (·.x)).Nodup) (x : Nat) :
     (x ∈ (stagingSnapshot s).added ↔ lastOf (pairs (logOf s)) x = some true) ∧
@@ -1146,7 +1146,7 @@ theorem getSafe_spill {s : State} (h : getSafe s = true) (he : s.entry = none) (
       · omega
       · exact h2 op hop'
 
-/-- the code as it is, inside the trigger-free region `getSafe` -/
+/-- the code before the fixes of F10/F17, inside the trigger-free region `getSafe` -/
 theorem get_correct_asis {s : State} (I : Inv s) (hc : s.cfg = asIs) (hsafe : getSafe s = true) :
     (∀ x, x ∈ (get s).2 ↔ x ∈ s.truth) ∧ Inv (get s).1 := by
   have hsnap : s.cfg.fixSnap = false := by rw [hc]; rfl
@@ -1216,7 +1216,7 @@ theorem get_correct_asis {s : State} (I : Inv s) (hc : s.cfg = asIs) (hsafe : ge
             · exact ⟨this h1, Or.inl h1⟩
         exact ⟨hset, mkInv _ (by intro S h; cases h; exact hset)⟩
 
-/-- reachability for the code as it is where every `get` happens inside the trigger-free region -/
+/-- reachability for the pre-fix code where every `get` happens inside the trigger-free region -/
 inductive ReachSafe (s0 : State) : State → Prop where
   | init : ReachSafe s0 s0
   | step {s s' : State} {e : Ev} {out : Option (List Nat)} :
